@@ -5,8 +5,8 @@
       every division is guarded by a mask.
    B. filter function derivative  dF = 2 Re sum_k conj(B_k) dB_k.
    C. assembly: product rule for sum_g B^(g) Q^(g).
-   D. the d == 2 shortcut equals the general branch for traceless operators and is refuted otherwise.
-   E. _liouville_derivative divides by Omega_ij = 0 outside its (diagonal-only) mask.
+   D. the (removed, fix 083da5e) d == 2 shortcut equals the general branch for traceless operators only.
+   E. _liouville_derivative: every division is guarded by the degeneracy mask (fix 8c041e1); A_mat is int_0^dt e^{i Omega t} dt.
    F. derivative of the Liouville representation from the derivative of the propagator
       (Duhamel's formula for the segment propagator is a Section hypothesis).
    G. identifier selection returns the slice of the full derivative; spectrum shapes.        *)
@@ -101,33 +101,37 @@ Proof.
 Qed.
 
 (* model values of the pieces over the reals *)
-Lemma di_tmp2_masked thr x dt : Rabs x < thr -> di_tmp2 RO thr x dt = (0, dt).
-Proof. intros H. unfold di_tmp2. rewrite ltabs_true by auto. apply cite_true. Qed.
-Lemma di_tmp2_unmasked thr x dt : thr <= Rabs x ->
+Lemma di_tmp2_masked thr x dt : Rabs (x * dt) < thr -> di_tmp2 RO thr x dt = (0, dt).
+Proof. intros H. unfold di_tmp2. rewrite ltabs_true by exact H. apply cite_true. Qed.
+Lemma di_tmp2_unmasked thr x dt : thr <= Rabs (x * dt) ->
   di_tmp2 RO thr x dt = (cos (x * dt) / x - 1 / x, sin (x * dt) / x).
-Proof. intros H. unfold di_tmp2. rewrite ltabs_false by auto. apply cite_false. Qed.
+Proof. intros H. unfold di_tmp2. rewrite ltabs_false by exact H. apply cite_false. Qed.
+(* an unmasked quantity is non-zero *)
+Lemma unmasked_nz thr x dt : 0 < thr -> thr <= Rabs (x * dt) -> x <> 0.
+Proof. intros H0 H ->. rewrite Rmult_0_l, Rabs_R0 in H. lra. Qed.
 (* tmp2 = i * int_0^dt e^{i x t} dt when the masked value is only used at x = 0 *)
-Lemma di_tmp2_val thr x dt : 0 < thr -> (Rabs x < thr -> x = 0) ->
+Lemma di_tmp2_val thr x dt : 0 < thr -> (Rabs (x * dt) < thr -> x = 0) ->
   di_tmp2 RO thr x dt = (- Is x dt, Ic x dt).
 Proof.
-  intros H0 Hm. destruct (Rlt_le_dec (Rabs x) thr) as [H|H].
+  intros H0 Hm. destruct (Rlt_le_dec (Rabs (x * dt)) thr) as [H|H].
   - rewrite di_tmp2_masked by auto. rewrite (Hm H), Ic_0, Is_0. apply c_eq; simpl; ring.
-  - assert (Hx : x <> 0) by (intros ->; rewrite Rabs_R0 in H; lra).
+  - assert (Hx : x <> 0) by exact (unmasked_nz thr x dt H0 H).
     rewrite di_tmp2_unmasked by auto. rewrite Ic_nz, Is_nz by auto. apply c_eq; simpl; field; auto.
 Qed.
 
-Theorem di_tmp1_exact thr x dt : 0 < thr -> (Rabs x < thr -> x = 0) ->
+Theorem di_tmp1_exact thr x dt : 0 < thr -> (Rabs (x * dt) < thr -> x = 0) ->
   is_RInt (dint_re x 0) 0 dt (fst (di_tmp1 RO thr x dt)) /\
   is_RInt (dint_im x 0) 0 dt (snd (di_tmp1 RO thr x dt)).
 Proof.
-  intros H0 Hm. unfold di_tmp1. destruct (Rlt_le_dec (Rabs x) thr) as [H|H].
-  - rewrite ltabs_true by auto. rewrite cite_true. simpl. rewrite (Hm H). split.
+  intros H0 Hm. unfold di_tmp1. change (omul RO x dt) with (x * dt).
+  destruct (Rlt_le_dec (Rabs (x * dt)) thr) as [H|H].
+  - rewrite ltabs_true by exact H. rewrite cite_true. simpl. rewrite (Hm H). split.
     + apply (is_RInt_ext (fun t => t)). intros t _. Req. rewrite dint_re_z, Rmult_0_l, cos_0. ring.
       evar_last. apply int_t. unfold o2; simpl. field.
     + apply (is_RInt_ext (fun _ => 0)). intros t _. Req. rewrite dint_im_z, Rmult_0_l, sin_0. ring.
       evar_last. apply @is_RInt_const. unfold scal; simpl; unfold mult; simpl. ring.
-  - assert (Hx : x <> 0) by (intros ->; rewrite Rabs_R0 in H; lra).
-    rewrite ltabs_false by auto. rewrite cite_false. rewrite di_tmp2_unmasked by auto. simpl. split.
+  - assert (Hx : x <> 0) by exact (unmasked_nz thr x dt H0 H).
+    rewrite ltabs_false by exact H. rewrite cite_false. rewrite di_tmp2_unmasked by auto. simpl. split.
     + apply (is_RInt_ext (fun t => t * cos (x * t))). intros t _. Req. rewrite dint_re_z. ring.
       apply int_tcos; auto.
     + apply (is_RInt_ext (fun t => t * sin (x * t))). intros t _. Req. rewrite dint_im_z. ring.
@@ -135,19 +139,19 @@ Proof.
 Qed.
 
 Theorem di_nz_exact thr thr_y x b dt : 0 < thr -> 0 < thr_y -> b <> 0 ->
-  (Rabs x < thr -> x = 0) -> (Rabs (x + b) < thr_y -> x + b = 0) ->
+  (Rabs (x * dt) < thr -> x = 0) -> (Rabs ((x + b) * dt) < thr_y -> x + b = 0) ->
   is_RInt (dint_re x b) 0 dt (fst (di_nz RO thr thr_y x b dt)) /\
   is_RInt (dint_im x b) 0 dt (snd (di_nz RO thr thr_y x b dt)).
 Proof.
   intros H0 H0y Hb Hmx Hmy.
   assert (E : di_nz RO thr thr_y x b dt = ((Is (x + b) dt - Is x dt) / b, (Ic x dt - Ic (x + b) dt) / b)).
   { unfold di_nz. rewrite (di_tmp2_val thr x dt H0 Hmx).
-    change (oadd RO x b) with (x + b). set (y := x + b) in *.
-    destruct (Rlt_le_dec (Rabs y) thr_y) as [H|H].
-    - rewrite ltabs_true by auto. rewrite cite_true. rewrite (Hmy H), Ic_0, Is_0.
+    change (oadd RO x b) with (x + b). set (y := x + b) in *. change (omul RO y dt) with (y * dt).
+    destruct (Rlt_le_dec (Rabs (y * dt)) thr_y) as [H|H].
+    - rewrite ltabs_true by exact H. rewrite cite_true. rewrite (Hmy H), Ic_0, Is_0.
       unfold cdivr, cadd; apply c_eq; simpl; field; auto.
-    - assert (Hy : y <> 0) by (intros E; rewrite E, Rabs_R0 in H; lra).
-      rewrite ltabs_false by auto. rewrite cite_false. rewrite (Ic_nz y), (Is_nz y) by auto.
+    - assert (Hy : y <> 0) by exact (unmasked_nz thr_y y dt H0y H).
+      rewrite ltabs_false by exact H. rewrite cite_false. rewrite (Ic_nz y), (Is_nz y) by auto.
       unfold cdivr, cadd; apply c_eq; simpl; field; repeat split; auto. }
   rewrite E. simpl. split.
   - apply (is_RInt_ext (fun t => scal (/ b) (minus (sin ((x + b) * t)) (sin (x * t))))).
@@ -168,9 +172,9 @@ Definition di_x (w : R) (ev : list R) (m n : nat) : R := w + (vg RO ev m - vg RO
    degenerate parameter: the limits i*dt, dt^2/2, -i*dt are consistent).                       *)
 Theorem deriv_integral_cases thr_dE thr_x thr_y w ev dt p q m n :
   0 < thr_dE -> 0 < thr_x -> 0 < thr_y ->
-  (Rabs (di_b ev p q) < thr_dE -> di_b ev p q = 0) ->
-  (Rabs (di_x w ev m n) < thr_x -> di_x w ev m n = 0) ->
-  (Rabs (di_x w ev m n + di_b ev p q) < thr_y -> di_x w ev m n + di_b ev p q = 0) ->
+  (Rabs (di_b ev p q * dt) < thr_dE -> di_b ev p q = 0) ->
+  (Rabs (di_x w ev m n * dt) < thr_x -> di_x w ev m n = 0) ->
+  (Rabs ((di_x w ev m n + di_b ev p q) * dt) < thr_y -> di_x w ev m n + di_b ev p q = 0) ->
   is_RInt (dint_re (di_x w ev m n) (di_b ev p q)) 0 dt
           (fst (deriv_integral_entry RO (thr_dE, thr_x, thr_y) w ev dt p q m n)) /\
   is_RInt (dint_im (di_x w ev m n) (di_b ev p q)) 0 dt
@@ -179,10 +183,11 @@ Proof.
   intros H1 H2 H3 Hb Hx Hy. unfold deriv_integral_entry.
   change (osub RO (vg RO ev p) (vg RO ev q)) with (di_b ev p q).
   change (oadd RO w (osub RO (vg RO ev m) (vg RO ev n))) with (di_x w ev m n).
-  destruct (Rlt_le_dec (Rabs (di_b ev p q)) thr_dE) as [H|H].
-  - rewrite ltabs_true by auto. rewrite cite_true. rewrite (Hb H). apply di_tmp1_exact; auto.
-  - rewrite ltabs_false by auto. rewrite cite_false. apply di_nz_exact; auto.
-    intros E. rewrite E, Rabs_R0 in H. lra.
+  change (omul RO (di_b ev p q) dt) with (di_b ev p q * dt).
+  destruct (Rlt_le_dec (Rabs (di_b ev p q * dt)) thr_dE) as [H|H].
+  - rewrite ltabs_true by exact H. rewrite cite_true. rewrite (Hb H). apply di_tmp1_exact; auto.
+  - rewrite ltabs_false by exact H. rewrite cite_false. apply di_nz_exact; auto.
+    exact (unmasked_nz thr_dE _ dt H1 H).
 Qed.
 
 (* the entry depends on the eigenvalues only through the two differences (used for the d = 2 shortcut) *)
@@ -200,12 +205,13 @@ Proof.
 Qed.
 
 (* no division outside a mask: every denominator the function divides by (mask false) is non-zero *)
-Theorem di_div_safe thr_dE thr_x thr_y w ev p q m n : 0 < thr_dE -> 0 < thr_x -> 0 < thr_y ->
-  forall bx, In bx (di_denoms RO (thr_dE, thr_x, thr_y) w ev p q m n) -> fst bx = false -> snd bx <> 0.
+Theorem di_div_safe thr_dE thr_x thr_y w ev dt p q m n : 0 < thr_dE -> 0 < thr_x -> 0 < thr_y ->
+  forall bx, In bx (di_denoms RO (thr_dE, thr_x, thr_y) w ev dt p q m n) -> fst bx = false -> snd bx <> 0.
 Proof.
   intros H1 H2 H3 bx Hin Hf. simpl in Hin.
-  assert (P : forall x thr, 0 < thr -> ltabs RO x thr = false -> x <> 0).
-  { intros x thr Ht Hm ->. unfold ltabs in Hm; simpl in Hm. apply Rgtb_false in Hm. rewrite Rabs_R0 in Hm. lra. }
+  assert (P : forall x thr, 0 < thr -> ltabs RO (omul RO x dt) thr = false -> x <> 0).
+  { intros x thr Ht Hm ->. unfold ltabs in Hm; simpl in Hm. apply Rgtb_false in Hm.
+    rewrite Rmult_0_l, Rabs_R0 in Hm. lra. }
   destruct Hin as [<-|[<-|[<-|[]]]]; simpl in *.
   - exact (P _ _ H2 Hf).
   - exact (P _ _ H3 Hf).
@@ -341,13 +347,25 @@ Proof.
     rewrite csumn_0, cadd_0_l. reflexivity.
 Qed.
 
-(* ================================================================== D. the d == 2 shortcut *)
+(* ================================================================== D. the d == 2 shortcut (removed by fix 083da5e) *)
+(* the code now uses the general expression for every d *)
+Theorem M_entry_general d DI (Cb NT : Mat) r c : M_entry RO d DI Cb NT r c = Mgen_entry RO d DI Cb NT r c.
+Proof. reflexivity. Qed.
+
+(* --- the pre-fix code:  if d == 2:  M[..., mask] -= M[..., mask][..., ::-1];  M[..., ~mask] *= 2 --- *)
+Definition flip01 (r : nat) : nat := match r with O => 1%nat | S _ => O end.
+Definition Mshort_entry_prefix (DI : nat -> nat -> nat -> nat -> Cx) (Cb NT : Mat) (r c : nat) : Cx :=
+  if Nat.eqb r c then csub' (M1_entry RO 2 DI Cb NT r r) (M1_entry RO 2 DI Cb NT (flip01 r) (flip01 r))
+  else cscal RO (o2 RO) (M1_entry RO 2 DI Cb NT r c).
+Definition M_entry_prefix (d : nat) DI (Cb NT : Mat) (r c : nat) : Cx :=
+  if Nat.eqb d 2 then Mshort_entry_prefix DI Cb NT r c else Mgen_entry RO d DI Cb NT r c.
+
 Lemma cscal_2 z : cscal RO (o2 RO) z = cadd' z z.
 Proof. apply c_eq; unfold o2; csimp; ring. Qed.
 Lemma cadd_eq0_neg (a b : Cx) : cadd' a b = 0c -> b = cneg' a.
 Proof. intros H. replace b with (csub' (cadd' a b) a) by ring. rewrite H. ring. Qed.
 
-(* For d = 2 and traceless (transformed) control and noise operators the shortcut equals the
+(* For d = 2 and traceless (transformed) control and noise operators the shortcut equalled the
    general branch, for every tensor DI that depends on (p,q) and (m,n) only through the
    eigenvalue differences (DI[p,p,..] = DI[p',p',..], DI[..,m,m] = DI[..,m',m']).            *)
 Theorem d2_shortcut_eq_general_traceless (DI : nat -> nat -> nat -> nat -> Cx) (Cb NT : Mat) :
@@ -355,7 +373,7 @@ Theorem d2_shortcut_eq_general_traceless (DI : nat -> nat -> nat -> nat -> Cx) (
   (forall p q m m', DI p q m m = DI p q m' m') ->
   mtrace RO 2 Cb = 0c -> mtrace RO 2 NT = 0c ->
   forall r c, (r < 2)%nat -> (c < 2)%nat ->
-  Mshort_entry RO 2 DI Cb NT r c = Mgen_entry RO 2 DI Cb NT r c.
+  Mshort_entry_prefix DI Cb NT r c = Mgen_entry RO 2 DI Cb NT r c.
 Proof.
   intros Hpp Hmm HC HN r c Hr Hc.
   unfold mtrace in HC, HN. simpl in HC, HN. rewrite cadd_0_l in HC, HN.
@@ -363,21 +381,8 @@ Proof.
   assert (E1 : forall m n, DI 1%nat 1%nat m n = DI O O m n) by (intros; apply Hpp).
   assert (E2 : forall p q, DI p q 1%nat 1%nat = DI p q O O) by (intros; apply Hmm).
   destruct r as [|[|r]]; [| |lia]; (destruct c as [|[|c]]; [| |lia]);
-    unfold Mshort_entry, Mgen_entry, M1_entry, M2_entry; simpl;
+    unfold Mshort_entry_prefix, Mgen_entry, M1_entry, M2_entry; simpl;
     rewrite ?E1, ?E2, ?HC, ?HN, ?cscal_2; ring.
-Qed.
-
-(* the model's derivative integral has the two symmetries *)
-Corollary d2_shortcut_eq_general_model th3 w ev dt (Cb NT : Mat) :
-  mtrace RO 2 Cb = 0c -> mtrace RO 2 NT = 0c ->
-  forall r c, (r < 2)%nat -> (c < 2)%nat ->
-  M_entry RO 2 (deriv_integral_entry RO th3 w ev dt) Cb NT r c
-  = Mgen_entry RO 2 (deriv_integral_entry RO th3 w ev dt) Cb NT r c.
-Proof.
-  intros HC HN r c Hr Hc. unfold M_entry. simpl.
-  apply d2_shortcut_eq_general_traceless; auto.
-  - intros. apply deriv_integral_entry_diag.
-  - intros. apply deriv_integral_entry_diag2.
 Qed.
 
 (* tracelessness is preserved by the transformation into the eigenbasis *)
@@ -398,23 +403,25 @@ Proof.
   change (oadd RO 0 (osub RO (vg RO ev m) (vg RO ev m))) with (0 + (vg RO ev m - vg RO ev m)).
   replace (vg RO ev p - vg RO ev p) with 0 by ring.
   replace (0 + (vg RO ev m - vg RO ev m)) with 0 by ring.
+  change (omul RO 0 dt) with (0 * dt). rewrite Rmult_0_l.
   rewrite ltabs_true by (rewrite Rabs_R0; auto). rewrite cite_true.
-  unfold di_tmp1. rewrite ltabs_true by (rewrite Rabs_R0; auto). rewrite cite_true. reflexivity.
+  unfold di_tmp1. change (omul RO 0 dt) with (0 * dt). rewrite Rmult_0_l.
+  rewrite ltabs_true by (rewrite Rabs_R0; auto). rewrite cite_true. reflexivity.
 Qed.
 
-(* Refutation for non-traceless operators: a non-degenerate segment (eigenvalues 0 and 1), w = 0,
+(* Pre-fix refutation for non-traceless operators: a non-degenerate segment (eigenvalues 0 and 1), w = 0,
    dt = 1, control and noise operator both the projector diag(1, 0) (in the eigenbasis):
-   the general branch gives M[0,0] = 0, the shortcut gives dt^2/2.  Any positive thresholds.      *)
+   the general branch gives M[0,0] = 0, the shortcut gave dt^2/2.  Any positive thresholds.      *)
 Definition proj0 : Mat (T:=R) := [[1c; 0c]; [0c; 0c]].
-Theorem d2_shortcut_refuted thr_dE thr_x thr_y : 0 < thr_dE -> 0 < thr_x -> 0 < thr_y ->
+Theorem d2_shortcut_prefix_refuted thr_dE thr_x thr_y : 0 < thr_dE -> 0 < thr_x -> 0 < thr_y ->
   exists (w dt : R) (ev : list R) (Cb NT : Mat) (r c : nat), (r < 2)%nat /\ (c < 2)%nat /\
     vg RO ev 0 <> vg RO ev 1 /\
-    M_entry RO 2 (deriv_integral_entry RO (thr_dE, thr_x, thr_y) w ev dt) Cb NT r c
+    M_entry_prefix 2 (deriv_integral_entry RO (thr_dE, thr_x, thr_y) w ev dt) Cb NT r c
     <> Mgen_entry RO 2 (deriv_integral_entry RO (thr_dE, thr_x, thr_y) w ev dt) Cb NT r c.
 Proof.
   intros H1 H2 H3. exists 0, 1, [0; 1], proj0, proj0, O, O.
   split; [lia|]. split; [lia|]. split. { unfold vg, vget; simpl. lra. }
-  unfold M_entry, Mshort_entry, Mgen_entry, M1_entry, M2_entry. simpl.
+  unfold M_entry_prefix, Mshort_entry_prefix, Mgen_entry, M1_entry, M2_entry. simpl.
   set (DI := deriv_integral_entry RO (thr_dE, thr_x, thr_y) 0 [0; 1] 1).
   assert (E : DI O O O O = (1 / 2, 0)).
   { unfold DI. rewrite di_diag_w0 by auto. apply c_eq; simpl; field. }
@@ -425,10 +432,66 @@ Proof.
 Qed.
 
 (* ================================================================== E. finiteness of _liouville_derivative *)
-Lemma in_amat_denoms d ev x :
-  In x (amat_denoms RO d ev) <-> exists i j, (i < d)%nat /\ (j < d)%nat /\ i <> j /\ x = vg RO ev i - vg RO ev j.
+Lemma in_amat_denoms d thr ev dt bx :
+  In bx (amat_denoms RO d thr ev dt) <->
+  exists i j, (i < d)%nat /\ (j < d)%nat /\
+    bx = (ltabs RO ((vg RO ev i - vg RO ev j) * dt) thr, vg RO ev i - vg RO ev j).
 Proof.
   unfold amat_denoms, build. rewrite in_concat. split.
+  - intros [l [Hl Hx]]. apply in_map_iff in Hl. destruct Hl as [i [<- Hi]]. apply in_seq in Hi.
+    apply in_map_iff in Hx. destruct Hx as [j [<- Hj]]. apply in_seq in Hj.
+    exists i, j. repeat split; auto; lia.
+  - intros [i [j [Hi [Hj ->]]]].
+    eexists. split. apply in_map_iff. exists i. split. reflexivity. apply in_seq; lia.
+    apply in_map_iff. exists j. split. reflexivity. apply in_seq; lia.
+Qed.
+
+(* every division of A_mat is guarded by the degeneracy mask np.abs(omega_diff*dt) < thr (fix 8c041e1) *)
+Theorem amat_div_safe d thr ev dt : 0 < thr ->
+  forall bx, In bx (amat_denoms RO d thr ev dt) -> fst bx = false -> snd bx <> 0.
+Proof.
+  intros H0 bx Hin Hf. apply in_amat_denoms in Hin. destruct Hin as [i [j [_ [_ ->]]]]. simpl in *.
+  intros E. rewrite E in Hf. unfold ltabs in Hf; simpl in Hf. apply Rgtb_false in Hf.
+  rewrite Rmult_0_l, Rabs_R0 in Hf. lra.
+Qed.
+(* the entries of A_mat are the ones guarded by those masks (definitional) *)
+Lemma amat_entry_eq d thr ev dt i j : (i < d)%nat -> (j < d)%nat ->
+  mget RO (amat RO d thr ev dt) i j
+  = cite RO (ltabs RO ((vg RO ev i - vg RO ev j) * dt) thr) (dt, 0) (amat_entry RO dt (vg RO ev i - vg RO ev j)).
+Proof. intros Hi Hj. unfold amat. rewrite mget_mbuild by auto. reflexivity. Qed.
+
+(* A_mat[i,j] = int_0^dt e^{i Omega_ij t} dt, provided a pair is masked only when it is exactly degenerate
+   (the limit value dt is the integral at Omega = 0: consistent) *)
+Theorem amat_entry_integral d thr ev dt i j : 0 < thr -> (i < d)%nat -> (j < d)%nat ->
+  (Rabs ((vg RO ev i - vg RO ev j) * dt) < thr -> vg RO ev i - vg RO ev j = 0) ->
+  is_RInt (fun t => cos ((vg RO ev i - vg RO ev j) * t)) 0 dt (fst (mget RO (amat RO d thr ev dt) i j)) /\
+  is_RInt (fun t => sin ((vg RO ev i - vg RO ev j) * t)) 0 dt (snd (mget RO (amat RO d thr ev dt) i j)).
+Proof.
+  intros H0 Hi Hj Hm. rewrite amat_entry_eq by auto. set (Om := vg RO ev i - vg RO ev j) in *.
+  destruct (Rlt_le_dec (Rabs (Om * dt)) thr) as [H|H].
+  - rewrite ltabs_true by exact H. rewrite cite_true. simpl. rewrite (Hm H). split; [apply int_cos0 | apply int_sin0].
+  - assert (HO : Om <> 0) by exact (unmasked_nz thr Om dt H0 H).
+    rewrite ltabs_false by exact H. rewrite cite_false. unfold amat_entry. simpl.
+    split; [apply int_cos | apply int_sin]; auto.
+Qed.
+
+(* a one-level system: A_mat = [[dt]] *)
+Lemma amat_1x1 thr e dt : 0 < thr -> amat RO 1 thr [e] dt = [[(dt, 0)]].
+Proof.
+  intros H. unfold amat, mbuild, build. cbn [seq map]. unfold vg, vget. cbn [nth].
+  change (osub RO e e) with (e - e). change (omul RO (e - e) dt) with ((e - e) * dt).
+  rewrite ltabs_true by (replace ((e - e) * dt) with 0 by ring; rewrite Rabs_R0; auto).
+  rewrite cite_true. reflexivity.
+Qed.
+
+(* --- pre-fix code: mask = np.eye(d), i.e. only the diagonal got the limit value --- *)
+Definition amat_denoms_prefix (d : nat) (ev : list R) : list R :=
+  List.concat (build d (fun i => List.concat (build d (fun j =>
+    if Nat.eqb i j then [] else [vg RO ev i - vg RO ev j])))).
+Lemma in_amat_denoms_prefix d ev x :
+  In x (amat_denoms_prefix d ev) <-> exists i j, (i < d)%nat /\ (j < d)%nat /\ i <> j /\ x = vg RO ev i - vg RO ev j.
+Proof.
+  unfold amat_denoms_prefix, build. rewrite in_concat. split.
   - intros [l [Hl Hx]]. apply in_map_iff in Hl. destruct Hl as [i [<- Hi]]. apply in_seq in Hi.
     apply in_concat in Hx. destruct Hx as [l' [Hl' Hx]]. apply in_map_iff in Hl'. destruct Hl' as [j [<- Hj]].
     apply in_seq in Hj. destruct (Nat.eqb_spec i j) as [E|E]. destruct Hx.
@@ -438,45 +501,30 @@ Proof.
     apply in_concat. eexists. split. apply in_map_iff. exists j. split. reflexivity. apply in_seq; lia.
     destruct (Nat.eqb_spec i j). contradiction. left. reflexivity.
 Qed.
-
-(* pairwise distinct eigenvalues: every division of A_mat is by a non-zero number *)
-Theorem amat_div_safe_distinct d ev :
-  (forall i j, (i < d)%nat -> (j < d)%nat -> i <> j -> vg RO ev i <> vg RO ev j) ->
-  forall x, In x (amat_denoms RO d ev) -> x <> 0.
+(* a segment with two equal eigenvalues (e.g. an idle segment): the pre-fix A_mat divided by Omega_ij = 0 *)
+Theorem finite_prefix_refuted_degenerate d ev i j : (i < d)%nat -> (j < d)%nat -> i <> j ->
+  vg RO ev i = vg RO ev j -> In 0 (amat_denoms_prefix d ev).
 Proof.
-  intros H x Hx. apply in_amat_denoms in Hx. destruct Hx as [i [j [Hi [Hj [Hne ->]]]]].
-  specialize (H i j Hi Hj Hne). lra.
+  intros Hi Hj Hne E. apply in_amat_denoms_prefix. exists i, j. repeat split; auto. rewrite E. ring.
 Qed.
-(* a segment with two equal eigenvalues (e.g. an idle segment): A_mat divides by Omega_ij = 0,
-   because its mask is np.eye(d) instead of omega_diff == 0 *)
-Theorem finite_refuted_degenerate d ev i j : (i < d)%nat -> (j < d)%nat -> i <> j ->
-  vg RO ev i = vg RO ev j -> In 0 (amat_denoms RO d ev).
-Proof.
-  intros Hi Hj Hne E. apply in_amat_denoms. exists i, j. repeat split; auto. rewrite E. ring.
-Qed.
-Theorem finite_refuted : exists d ev, In 0 (amat_denoms RO d ev).
-Proof. exists 2%nat, [0; 0]. apply (finite_refuted_degenerate 2 [0; 0] 0 1); auto. Qed.
-(* the off-diagonal entry of A_mat is computed with that denominator (definitional) *)
-Lemma amat_offdiag d ev dt i j : (i < d)%nat -> (j < d)%nat -> i <> j ->
-  mget RO (amat RO d ev dt) i j = amat_entry RO dt (vg RO ev i - vg RO ev j).
-Proof.
-  intros Hi Hj Hne. unfold amat. rewrite mget_mbuild by auto.
-  destruct (Nat.eqb_spec i j); [contradiction | reflexivity].
-Qed.
+Theorem finite_prefix_refuted : exists d ev, In 0 (amat_denoms_prefix d ev).
+Proof. exists 2%nat, [0; 0]. apply (finite_prefix_refuted_degenerate 2 [0; 0] 0 1); auto. Qed.
 
 (* ================================================================== G. spectrum shapes *)
-(* infidelity() parses the spectrum against the SELECTED noise operators, infidelity_derivative()
-   against ALL of them: a per-operator spectrum for a proper subset is accepted by the first and
-   rejected by the second (2 of 3 noise operators selected, 5 frequencies). *)
-Theorem spectrum_shape_refuted : exists shape n_selected n_all n_omega,
+(* infidelity() and (since fix 1090e57) infidelity_derivative() parse the spectrum against the SELECTED noise
+   operators: the same shapes are accepted *)
+Theorem spectrum_shape_same shape n_selected n_all n_omega :
+  infidelity_derivative_accepts shape n_selected n_all n_omega = infidelity_accepts shape n_selected n_all n_omega.
+Proof. reflexivity. Qed.
+(* pre-fix: parsed against ALL noise operators; a per-operator spectrum for a proper subset was rejected
+   (2 of 3 noise operators selected, 5 frequencies) *)
+Definition infidelity_derivative_accepts_prefix (shape : list nat) (n_selected n_all n_omega : nat) : bool :=
+  parse_spectrum_accepts shape n_all n_omega.
+Theorem spectrum_shape_prefix_refuted : exists shape n_selected n_all n_omega,
   (n_selected <= n_all)%nat /\
   infidelity_accepts shape n_selected n_all n_omega = true /\
-  infidelity_derivative_accepts shape n_selected n_all n_omega = false.
+  infidelity_derivative_accepts_prefix shape n_selected n_all n_omega = false.
 Proof. exists [2; 5]%nat, 2%nat, 3%nat, 5%nat. repeat split. lia. Qed.
-(* no subset selected: same shapes accepted *)
-Theorem spectrum_shape_all shape n n_omega :
-  infidelity_derivative_accepts shape n n n_omega = infidelity_accepts shape n n n_omega.
-Proof. reflexivity. Qed.
 
 (* ================================================================== F. derivative of the Liouville representation *)
 Section LiouvilleDeriv.
@@ -569,14 +617,14 @@ Qed.
 Section Duhamel.
 (* propagators Q_s, Q_{s+1} (before / after segment s) and Q_{t+1}, t >= s; eigen-data of segment s;
    the control operator in the eigenbasis *)
-Variables (Qs Qs1 Qt1 V : Mat (T:=R)) (ev : list R) (dt : R) (Cbar : Mat (T:=R)).
+Variables (thrA : R) (Qs Qs1 Qt1 V : Mat (T:=R)) (ev : list R) (dt : R) (Cbar : Mat (T:=R)).
 (* the propagator of segment s as a function of the control amplitude u = u_h(t_s) *)
 Variable Pu : R -> fmat.
 Variable u0 : R.
 (* Duhamel: d/du exp(-i (H + (u - u0) C_h) dt) at u0 is -i P V (A o Cbar) V^dagger with
-   A_ij = int_0^dt e^{i Omega_ij t} dt -- the value the model computes as U_deriv *)
+   A_ij = int_0^dt e^{i Omega_ij t} dt -- the value the model computes as U_deriv (amat_entry_integral) *)
 Hypothesis Duhamel : forall i j, (i < d)%nat -> (j < d)%nat ->
-  cderive (fun u => Pu u i j) u0 (toF (u_deriv RO d Qs Qs1 V ev dt Cbar) i j).
+  cderive (fun u => Pu u i j) u0 (toF (u_deriv RO d thrA Qs Qs1 V ev dt Cbar) i j).
 Hypothesis Pu_u0 : feq d (fmul d (Pu u0) (toF Qs)) (toF Qs1).
 Hypothesis Qs1_unitary : funitary d (toF Qs1).
 
@@ -593,11 +641,11 @@ Qed.
 Theorem liouville_deriv_Duhamel (Cj Ck : Mat (T:=R)) :
   fherm d (toF Cj) -> fherm d (toF Ck) ->
   is_derive (fun u => fliou (Qt1_of u) (toF Cj) (toF Ck)) u0
-    (ld_entry RO d (mmul RO d Qt1 (u_deriv_transformed RO d Qs Qs1 (u_deriv RO d Qs Qs1 V ev dt Cbar)))
+    (ld_entry RO d (mmul RO d Qt1 (u_deriv_transformed RO d Qs Qs1 (u_deriv RO d thrA Qs Qs1 V ev dt Cbar)))
                    (mmul RO d (mmul RO d Cj Qt1) Ck)).
 Proof.
   intros Hj Hk.
-  set (UD := u_deriv RO d Qs Qs1 V ev dt Cbar) in *.
+  set (UD := u_deriv RO d thrA Qs Qs1 V ev dt Cbar) in *.
   set (Rm := fmul d (toF Qt1) (fadj (toF Qs1))).
   set (dQ := fmul d Rm (fmul d (toF UD) (toF Qs))).
   assert (HQ : forall i j, (i < d)%nat -> (j < d)%nat -> cderive (fun v => Qt1_of v i j) u0 (dQ i j)).
@@ -664,18 +712,18 @@ Qed.
    operators (columns of n_coeffs_deriv) by index arrays and then differentiating gives the
    corresponding slice of the full derivative: every (a, h) block depends on noise operator a and
    control operator h only (all other operators enter only through the spectral data).          *)
-Theorem slice_commutes d thr th3 evs Vs Qs omega basis nopers copers ncoeffs dts ts use_ncd ncd n_idx c_idx :
+Theorem slice_commutes d thr th3 thrA evs Vs Qs omega basis nopers copers ncoeffs dts ts use_ncd ncd n_idx c_idx :
   List.Forall (fun i => (i < List.length nopers)%nat) n_idx -> List.Forall (fun i => (i < List.length copers)%nat) c_idx ->
-  ctrlmat_deriv Op d thr th3 evs Vs Qs omega basis (select [] n_idx nopers) (select [] c_idx copers)
+  ctrlmat_deriv Op d thr th3 thrA evs Vs Qs omega basis (select [] n_idx nopers) (select [] c_idx copers)
                 (select [] n_idx ncoeffs) dts ts use_ncd (select [] n_idx (map (select [] c_idx) ncd))
   = select [] n_idx (map (select [] c_idx)
-      (ctrlmat_deriv Op d thr th3 evs Vs Qs omega basis nopers copers ncoeffs dts ts use_ncd ncd)).
+      (ctrlmat_deriv Op d thr th3 thrA evs Vs Qs omega basis nopers copers ncoeffs dts ts use_ncd ncd)).
 Proof.
   intros Hn Hc. unfold ctrlmat_deriv. cbv zeta.
   set (G := List.length dts). set (nj := List.length basis). set (no := List.length omega).
   set (P := pair_of Op d G nj no (sh_phase Op ts omega G) (sh_BT Op d Vs basis) (sh_ints Op d thr evs dts omega)
               (sh_DIs Op d th3 evs dts omega) (sh_Ls Op d Qs basis) Vs).
-  set (Fc := ctrl_data Op d G nj evs Vs Qs dts (sh_X Op d Qs basis G)).
+  set (Fc := ctrl_data Op d thrA G nj evs Vs Qs dts (sh_X Op d Qs basis G)).
   rewrite !select_length.
   (* right-hand side: read the full array at the selected indices *)
   rewrite map_build. rewrite select_build_idx by assumption.
@@ -753,9 +801,9 @@ Variables (thr_dE thr_x thr_y dt : R).
 Hypothesis thr_pos : 0 < thr_dE /\ 0 < thr_x /\ 0 < thr_y.
 (* a masked quantity is masked only when it is exactly zero (no Taylor-branch approximation involved) *)
 Hypothesis mask_exact : forall p q m n, (p < d)%nat -> (q < d)%nat -> (m < d)%nat -> (n < d)%nat ->
-  (Rabs (di_b ev p q) < thr_dE -> di_b ev p q = 0) /\
-  (Rabs (di_x w ev m n) < thr_x -> di_x w ev m n = 0) /\
-  (Rabs (di_x w ev m n + di_b ev p q) < thr_y -> di_x w ev m n + di_b ev p q = 0).
+  (Rabs (di_b ev p q * dt) < thr_dE -> di_b ev p q = 0) /\
+  (Rabs (di_x w ev m n * dt) < thr_x -> di_x w ev m n = 0) /\
+  (Rabs ((di_x w ev m n + di_b ev p q) * dt) < thr_y -> di_x w ev m n + di_b ev p q = 0).
 
 Lemma DI_cRInt p q m n : (p < d)%nat -> (q < d)%nat -> (m < d)%nat -> (n < d)%nat ->
   cRInt (dint (w + Om m n) (Om p q)) 0 dt (deriv_integral_entry RO (thr_dE, thr_x, thr_y) w ev dt p q m n).
@@ -833,7 +881,7 @@ Variable d : nat.
 
 (* every number of calculate_derivative_of_control_matrix_from_scratch is an [assemble_entry] of the per-segment
    derivatives, the Liouville propagators, the per-segment control matrices and the Liouville derivatives *)
-Theorem ctrlmat_deriv_entry thr th3 evs Vs Qs omega basis nopers copers ncoeffs dts ts use_ncd ncd a h s o k :
+Theorem ctrlmat_deriv_entry thr th3 thrA evs Vs Qs omega basis nopers copers ncoeffs dts ts use_ncd ncd a h s o k :
   (a < List.length nopers)%nat -> (h < List.length copers)%nat -> (s < List.length dts)%nat ->
   (o < List.length omega)%nat -> (k < List.length basis)%nat ->
   let G := List.length dts in let nj := List.length basis in let no := List.length omega in
@@ -841,11 +889,11 @@ Theorem ctrlmat_deriv_entry thr th3 evs Vs Qs omega basis nopers copers ncoeffs 
   let BTs := sh_BT Op d Vs basis in
   let NTs := noise_NT Op d Vs (nthm nopers a) (nthv ncoeffs a) G in
   let steps := noise_steps Op d G nj no phases BTs (sh_ints Op d thr evs dts omega) NTs in
-  let cd := nth h (map (ctrl_data Op d G nj evs Vs Qs dts (sh_X Op d Qs basis G)) copers) ([], []) in
+  let cd := nth h (map (ctrl_data Op d thrA G nj evs Vs Qs dts (sh_X Op d Qs basis G)) copers) ([], []) in
   let SD := pair_SD Op d G nj no phases BTs (sh_DIs Op d th3 evs dts omega) NTs (fst cd) steps use_ncd
                     (nth2 [] ncd a h) (nthv ncoeffs a) in
   nth k (nth o (nth s (nth h (nth a
-    (ctrlmat_deriv Op d thr th3 evs Vs Qs omega basis nopers copers ncoeffs dts ts use_ncd ncd) []) []) []) []) (c0 Op)
+    (ctrlmat_deriv Op d thr th3 thrA evs Vs Qs omega basis nopers copers ncoeffs dts ts use_ncd ncd) []) []) []) []) (c0 Op)
   = assemble_entry Op nj G (fun j => nth3 (c0 Op) SD s j o) (rget Op (nth s (sh_Ls Op d Qs basis) []))
       (fun g j => nth3 (c0 Op) steps g j o) (fun t j k' => nth4 (o0 Op) (snd cd) t s j k') k.
 Proof.
